@@ -250,6 +250,10 @@ Definition omitted_multi (ks : list N) (l : list tx) : bool :=
 Definition some_omitted (ks : list N) (l : list tx) : bool :=
   existsb (fun t => negb (touches ks t)) l.
 
+(* the merkle_root field of the block is not the root of its transactions *)
+Definition stale_root (b : block) : bool :=
+  negb (res_eqb hv_eqb (generate_merkle_root b true true) (Ok (h_merkle_root (b_hdr b)))).
+
 (* ---------------------------------------------------------------- observation compared with the implementation *)
 
 (* everything the harness observes of one (block, key list): the lite block, the root recomputed
